@@ -35,7 +35,7 @@ Definition oMeta (m : meta) : sx :=
      oRows (m_groups m)].
 
 (* (op args...) *)
-Definition run (s : sx) : sx :=
+Definition run_basic (s : sx) : sx :=
   let a := fun n => xnth n s in
   match xZ (a 0%nat) with
   | 1 => oRes oSeq (shift (xZ (a 1%nat)) (xSeq (a 2%nat)))
@@ -49,4 +49,30 @@ Definition run (s : sx) : sx :=
   | 6 => oRes (fun p => L [oSeq (fst (fst p)); oZs (snd (fst p)); I (snd p)])
               (rectify (xZ (a 1%nat)) (xSeq (a 2%nat)))
   | _ => oErr 99
+  end.
+
+(** Two-step use (glue): op 7 = (7 seq (step...) final).  Every step and [final] is an ordinary
+    op 1..5 (final: 1..6) request in which the atom [HOLE] stands for "the sequence produced so
+    far"; a step that fails ends the chain with its error. *)
+Definition HOLE : Z := - 2 ^ 70.
+Fixpoint subst (v : sx) (s : sx) : sx :=
+  match s with
+  | I z => if z =? HOLE then v else s
+  | L l => L (map (subst v) l)
+  end.
+Definition is_err (s : sx) : bool := xZ (xnth 0 s) =? -1000.
+Definition payload_seq (op : Z) (p : sx) : sx :=
+  match op with 3 | 5 => xnth 0 p | _ => p end.
+Fixpoint chain (steps : list sx) (cur : sx) (final : sx) : sx :=
+  match steps with
+  | [] => run_basic (subst cur final)
+  | st :: r =>
+      let out := run_basic (subst cur st) in
+      if is_err out then out else chain r (payload_seq (xZ (xnth 0 st)) (xnth 1 out)) final
+  end.
+
+Definition run (s : sx) : sx :=
+  match xZ (xnth 0 s) with
+  | 7 => chain (xL (xnth 2 s)) (xnth 1 s) (xnth 3 s)
+  | _ => run_basic s
   end.
